@@ -288,28 +288,98 @@ def _run_stream(exe, lines, restart_on_death, env=None):
         e = dict(os.environ)
         if env:
             e.update(env)
-        p = subprocess.run([exe], input=data, stdout=subprocess.PIPE, stderr=subprocess.PIPE, env=e)
-        got = p.stdout.decode("utf-8", "replace").split("\n")
+        stdout, stderr, rc, hung = _run_watched(exe, data, e)
+        got = stdout.decode("utf-8", "replace").split("\n")
         if got and got[-1] == "":
             got.pop()
+        if hung and got and not stdout.endswith(b"\n"):
+            got.pop()  # a partial line of the operation that never finished
         if len(got) >= len(chunk):
             outs.extend(got[: len(chunk)])
             pos = n
             break
-        # died on line index len(got)
+        # died (or hung) on line index len(got)
         outs.extend(got)
         pos += len(got)
+        err_text = stderr.decode("utf-8", "replace")
         if not restart_on_death:
-            raise RuntimeError("%s died (rc=%s) on line %r\n%s" % (exe, p.returncode, lines[pos][:300], p.stderr.decode("utf-8", "replace")[-2000:]))
-        rc = p.returncode
-        sig = -rc if rc < 0 else rc
-        tail = p.stderr.decode("utf-8", "replace").strip().split("\n")[-1][:200] if p.stderr else ""
+            raise RuntimeError("%s died (rc=%s, hung=%s) on line %r\n%s" % (exe, rc, hung, lines[pos][:300], err_text[-2000:]))
+        sig = -rc if rc is not None and rc < 0 else rc
         kind = "abort"
-        if "unsafe precondition" in p.stderr.decode("utf-8", "replace"):
+        if hung:
+            # no output for HANG_SECONDS (or the address space limit was hit while it kept allocating): the
+            # operation does not terminate - for C02 that is the violation itself
+            kind = "hang"
+        elif "unsafe precondition" in err_text:
             kind = "ub-precondition"
         outs.append("fault(%s,sig=%s)" % (kind, sig))
         pos += 1
     return outs
+
+
+HANG_SECONDS = int(os.environ.get("VERIF_HANG_SECONDS", "120"))
+ADDRESS_SPACE_LIMIT = 24 << 30
+
+
+def _limit_child():
+    import resource
+
+    try:
+        resource.setrlimit(resource.RLIMIT_AS, (ADDRESS_SPACE_LIMIT, ADDRESS_SPACE_LIMIT))
+    except (ValueError, OSError):
+        pass
+
+
+def _run_watched(exe, data, env):
+    """run exe on data; kill it when it produces no output line for HANG_SECONDS while input is still pending (the
+    harness answers every line, line buffered).  returns (stdout, stderr, returncode, hung)"""
+    import threading
+
+    p = subprocess.Popen([exe], stdin=subprocess.PIPE, stdout=subprocess.PIPE, stderr=subprocess.PIPE, env=env, preexec_fn=_limit_child)
+    out_chunks, err_chunks = [], []
+    last = [time.time()]
+
+    def feed():
+        try:
+            p.stdin.write(data)
+            p.stdin.close()
+        except (BrokenPipeError, OSError):
+            pass
+
+    def read_out():
+        while True:
+            b = p.stdout.read1(1 << 16) if hasattr(p.stdout, "read1") else p.stdout.read(1 << 16)
+            if not b:
+                break
+            out_chunks.append(b)
+            last[0] = time.time()
+
+    def read_err():
+        while True:
+            b = p.stderr.read(1 << 16)
+            if not b:
+                break
+            err_chunks.append(b[-(1 << 16):])
+            if len(err_chunks) > 8:
+                del err_chunks[:4]
+
+    ts = [threading.Thread(target=f, daemon=True) for f in (feed, read_out, read_err)]
+    for t in ts:
+        t.start()
+    hung = False
+    while True:
+        try:
+            p.wait(timeout=0.2)
+            break
+        except subprocess.TimeoutExpired:
+            if time.time() - last[0] > HANG_SECONDS:
+                hung = True
+                p.kill()
+                p.wait()
+                break
+    for t in ts[1:]:
+        t.join(timeout=10)
+    return b"".join(out_chunks), b"".join(err_chunks), p.returncode, hung
 
 
 def build_harness_profile(profile):
